@@ -458,8 +458,11 @@ def enumerated_index_of(ptr):
 
 def rule_var_slices(F, ev_unused, R, config, rule="R-VAR-SLICES"):
     """variance accessors = the diagonal segments [0,|B|) and [|B|,|B|+|P|) of the covariance —
-    decided on the element stores the accessor performs (whatever helpers/loop forms it uses)"""
+    decided on the canonical tabulation of the returned vector (tab.py): element k of the result is
+    cov[k+start, k+start] for every k below the segment length, whatever helpers, loop forms,
+    generators or intermediate diagonal vectors the accessor uses"""
     import effects as fx
+    import tab
     ev0 = Eval(F, opaque=[k for k in F.bodies if " as std::ops::Mul<" in k])
     sr = stats_roles(F, ev0)
     lin = inherent_methods(F, ADT_STATS, "linear_coefficients_variance")[0]
@@ -467,65 +470,40 @@ def rule_var_slices(F, ev_unused, R, config, rule="R-VAR-SLICES"):
     for b, which in ((lin, "lin"), (non, "non")):
         me = ("param", b.key, 1)
         L, P = ("field", me, sr["lin"]), ("field", me, sr["nonlin"])
+        cov = ("field", me, sr["cov"])
         env = Env(b)
+        cn = tab.Canon(ev0)
         effs = list(fx.iteration_effects(ev0, env))
-        stores = [e for e in effs if e.kind == "store"]
-        ok = False
-        msg = "the accessor performs %d element stores (expected one store per element of the returned vector)" % len(stores)
-        if len(stores) == 1:
-            ptr, val = stores[0].args
-            comp = iter_component(ptr)
-            idx = enumerated_index_of(ptr)
-            msg = "element store `%s ← %s` not recognised" % (short(ptr)[:80], short(val)[:100])
-            if comp and idx is not None:
-                it = comp[0]
-                src = it
-                while src[0] == "call" and src[1].rsplit("::", 1)[-1] in ("enumerate", "into_iter"):
-                    src = fx.base_iter(src[3][0])
-                out_alloc = base_alloc(src[3][0]) if src[0] == "call" and src[1].rsplit("::", 1)[-1] == "iter_mut" else None
-                # value = V[(idx + start, 0)] (or V[idx + start])
-                okv = False
-                start = None
-                V = None
-                if val[0] == "call" and val[1].endswith("Index::index") and len(val[3]) == 2:
-                    V, ix = val[3]
-                    i0 = ix[1][0] if ix[0] == "tuple" else ix
-                    if i0 == idx:
-                        start, okv = ("const", "usize", 0), True
-                    elif i0[0] == "bin" and i0[1] == "Add" and idx in (i0[2], i0[3]):
-                        start = dimval(i0[3] if i0[2] == idx else i0[2])
-                        okv = True
-                okd = V is not None and V[0] == "call" and V[1].endswith("::diagonal") and V[3][0] == ("field", me, sr["cov"])
-                if not okv:
-                    msg = "element value `%s` is not v[idx + start]" % short(val)[:100]
-                elif not okd:
-                    msg = "slices `%s`, not the diagonal of the covariance" % short(V)[:100]
-                else:
-                    zero = lambda t: t == ("const", "usize", 0) or (t[0] == "constitem" and t[1].endswith("U0")) or t == ("n", 0)
-                    n_out = dimval(out_alloc[3][0]) if out_alloc is not None and out_alloc[0] == "call" and out_alloc[3] else None
-                    def sub_eq(n_, end_, start_):
-                        if n_ is None:
-                            return False
-                        if n_ == ("bin", "Sub", end_, start_):
-                            return True
-                        return zero(start_) and n_ == end_
-                    if which == "lin":
-                        okr = zero(start) and (sub_eq(n_out, L, start) or n_out == L)
-                        seg = "linear [0,|B|)"
-                    else:
-                        LP = [("bin", "Add", L, P), ("bin", "Add", P, L)]
-                        okr = start == L and any(sub_eq(n_out, e_, L) for e_ in LP)
-                        seg = "nonlinear [|B|,|B|+|P|)"
-                    ok = okr
-                    if not okr:
-                        msg = "range start `%s`, length `%s` is not the %s segment" % (short(start), short(n_out) if n_out else None, seg)
-        R.add(rule, config, b.key, "diag-segment", ok, "" if ok else msg, b.j["span"])
-        # the returned value is that vector
         ev0.fresh_ctx()
-        rv = base_alloc(ev0.ret_val(env))
-        from rules_panic import nosite
-        okret = len(stores) == 1 and ok and out_alloc is not None and nosite(rv) == nosite(out_alloc)
-        R.add(rule, config, b.key, "returns-the-filled-vector", okret, "" if okret else "the accessor does not return the vector it fills", b.j["span"])
+        rv = ev0.ret_val(env)
+        T, why = tab.tab_of(cn, effs, rv)
+        ok = False
+        msg = "the returned vector is not recognised as filled element by element: " + why
+        if T is not None and len(T["ivs"]) == 1:
+            k = T["ivs"][0]
+            v = T["val"]
+            if not (v[0] == "at" and v[1] == cov and len(v) == 4):
+                msg = "element k of the result is `%s`, not an element of the covariance matrix" % short(v)[:120]
+            elif v[2] != v[3]:
+                msg = "element k of the result is cov[%s, %s]: not a diagonal element" % (short(v[2])[:50], short(v[3])[:50])
+            else:
+                off = tab.ilin(v[2])
+                if off is None or off.get(k) != 1:
+                    msg = "element k of the result is cov[%s, ·]: not k + start" % short(v[2])[:60]
+                else:
+                    start = {a: c for a, c in off.items() if a != k}
+                    n = tab.ilin(T["dims"][0]) if T["dims"] else None
+                    want_start, want_n, seg = ({}, {L: 1}, "linear [0,|B|)") if which == "lin" else ({L: 1}, {P: 1}, "nonlinear [|B|,|B|+|P|)")
+                    if start != want_start or n != want_n:
+                        msg = "the result has length `%s` and starts at offset `%s`: not the %s segment of the diagonal" % (
+                            short(T["dims"][0])[:60] if T["dims"] else None, " + ".join("%s·%s" % (c, short(a) if a else "1") for a, c in start.items()) or "0", seg)
+                    elif not T["complete"]:
+                        msg = "not every element of the result is written (loop bounds `%s` vs length `%s`, or a conditional store)" % (
+                            short(cn.extent.get(k[1]))[:60] if cn.extent.get(k[1]) else None, short(T["dims"][0])[:60])
+                    else:
+                        ok = True
+        R.add(rule, config, b.key, "diag-segment", ok, "" if ok else msg, b.j["span"])
+        R.add(rule, config, b.key, "returns-the-filled-vector", T is not None, "" if T is not None else "the accessor does not return a vector it fills: " + why, b.j["span"])
     # count roles initialised from the matching model count
     b, env, f, s, _ = ctor_fields(F, ev0)
     a = args_by_type(b)
@@ -560,68 +538,52 @@ def resolve_collected(t, ev):
 
 
 def rule_correlation(F, ev, R, config, rule="R-CORRELATION"):
+    """corr[i,j] = cov[i,j] / sqrt(cov[i,i]·cov[j,j]) for every (i,j) of the covariance's shape — decided
+    on the canonical tabulation of the returned matrix (nested index loops, from_fn, helper functions)"""
     import effects as fx
+    import tab
     acc = inherent_methods(F, ADT_STATS, "calculate_correlation_matrix")
     if len(acc) != 1:
         R.bad(rule, config, "-", "anchor-missing", "calculate_correlation_matrix")
         return
-    ab = acc[0]
+    # the deprecated twin accessor must satisfy the same formula
+    for ab in acc + inherent_methods(F, ADT_STATS, "correlation_matrix"):
+        _correlation_of(F, ev, R, config, rule, ab)
+    R.floor(rule, config, 2, "element formula + every entry written")
+
+
+def _correlation_of(F, ev, R, config, rule, ab):
+    import effects as fx
+    import tab
     sr = stats_roles(F, ev)
     env0 = Env(ab)
     cov = ("field", ("param", ab.key, 1), sr["cov"])
+    cn = tab.Canon(ev)
     effs = list(fx.iteration_effects(ev, env0))
-    stores = [e for e in effs if e.kind == "store" and e.args[0][0] == "call" and e.args[0][1].endswith("IndexMut::index_mut")]
+    ev.fresh_ctx()
+    rv = ev.ret_val(env0)
+    T, why = tab.tab_of(cn, effs, rv)
     ok = False
-    msg = "expected one element store corr[(i,j)] = …, found %d" % len(stores)
-    hb = None
-    if len(stores) == 1:
-        e = stores[0]
-        hb = e.body
-        ptr, v = e.args
-        dest, ix = ptr[3]
-        al = base_alloc(dest)
-        if ix[0] != "tuple" or len(ix[1]) != 2:
-            msg = "element index `%s`" % short(ix)[:80]
+    msg = "the returned matrix is not recognised as filled element by element: " + why
+    if T is not None:
+        v = T["val"]
+        if len(T["ivs"]) != 2:
+            msg = "the result is not indexed by a pair of independent loop indices"
         else:
-            i, j = ix[1]
+            i, j = T["ivs"]
 
-            def idx_space(t):
-                """(which dimension of cov the index ranges over fully) for a loop index term"""
-                if t[0] == "elem":
-                    it = fx.base_iter(t[1])
-                    if it[0] == "agg" and it[1].endswith("ops::Range") and dict(it[3]).get("start") == ("const", "usize", 0):
-                        end = dimval(dict(it[3]).get("end"))
-                        if end[0] == "call" and end[1].rsplit("::", 1)[-1] in ("nrows", "ncols") and base_alloc(end[3][0]) in (al, cov):
-                            return end[1].rsplit("::", 1)[-1]
-                if t[0] == "field" and t[2] == "0" and t[1][0] == "elem":
-                    val, end = resolve_collected(("field", t[1], "1"), ev)
-                    if end is not None:
-                        end = dimval(end)
-                        if end[0] == "call" and end[1].rsplit("::", 1)[-1] in ("nrows", "ncols") and base_alloc(end[3][0]) in (al, cov):
-                            return end[1].rsplit("::", 1)[-1]
-                return None
-            si, sj = idx_space(i), idx_space(j)
-            okloops = si is not None and sj is not None and i != j
-            okalloc = al[0] == "call" and len(al[3]) >= 2 and all(
-                (lambda d: d[0] == "call" and d[1].rsplit("::", 1)[-1] in ("nrows", "ncols") and d[3][0] == cov)(dimval(x)) for x in al[3][:2])
-
-            def is_idx(t, a_, b_):
-                if t[0] == "call" and t[1].endswith("Index::index") and t[3][0] == cov and t[3][1] == ("tuple", (a_, b_)):
-                    return True
-                r, _ = resolve_collected(t, ev)
-                if r is not None and a_ == b_ and t[0] == "field" and ("field", t[1], "0") == a_:
-                    return r[0] == "call" and r[1].endswith("Index::index") and r[3][0] == cov and r[3][1] == ("tuple", (a_, a_))
-                return False
+            def is_cov(t, a_, b_):
+                return t == ("at", cov, a_, b_)
             okv = False
             if v[0] == "call" and v[1] == "std::ops::Div::div":
                 num, den = v[3]
-                okn = is_idx(num, i, j) or is_idx(num, j, i)
+                okn = is_cov(num, i, j) or is_cov(num, j, i)
                 okd = False
                 if den[0] == "call" and den[1].endswith("::sqrt"):
                     p_ = den[3][0]
                     if p_[0] == "call" and p_[1] == "std::ops::Mul::mul":
                         x, y = p_[3]
-                        okd = (is_idx(x, i, i) and is_idx(y, j, j)) or (is_idx(x, j, j) and is_idx(y, i, i))
+                        okd = (is_cov(x, i, i) and is_cov(y, j, j)) or (is_cov(x, j, j) and is_cov(y, i, i))
                 okv = okn and okd
                 if not okn:
                     msg = "numerator `%s` is not cov(i,j)" % short(num)[:100]
@@ -629,41 +591,16 @@ def rule_correlation(F, ev, R, config, rule="R-CORRELATION"):
                     msg = "denominator `%s` is not sqrt(cov(i,i)·cov(j,j))" % short(den)[:140]
             else:
                 msg = "element value `%s`" % short(v)[:120]
-            if okv and not okloops:
-                msg = "loops do not range over the full square"
-            if okv and not okalloc:
-                msg = "result not allocated with the covariance's shape"
-            ok = okv and okloops and okalloc
+            want = (("nrows", cov), ("ncols", cov))
+            okshape = tuple(T["dims"]) in (want, (("nrows", cov), ("nrows", cov)), (("ncols", cov), ("ncols", cov)))
+            if okv and not okshape:
+                msg = "result not allocated with the covariance's shape: %s" % ", ".join(short(d)[:40] for d in T["dims"])
+            ok = okv and okshape
     R.add(rule, config, ab.key, "corr(i,j)=cov(i,j)/sqrt(cov(i,i)cov(j,j))", ok, "" if ok else msg, ab.j["span"])
-    # every element is written: the write lies on every path through the innermost loop body
-    okw = False
-    msgw = "no element write inside a loop"
-    if hb is not None:
-        wb = stores[0].block
-        loops = hb.natural_loops()
-        inner = [(h, blk) for h, blk in loops.items() if wb in blk]
-        if inner:
-            h, blk = min(inner, key=lambda x: len(x[1]))
-            entry = None
-            for lb in blk:
-                t = hb.blocks[lb]["term"]
-                if t["k"] == "call" and "fn" in t and callee_id(t["fn"]) == "std::iter::Iterator::next":
-                    for c in consumers(hb, t["dest"]["l"]):
-                        if c["kind"] == "discr" and hb.blocks[c["block"]]["term"]["k"] == "switch" and c["block"] in blk:
-                            yes, no = variant_edge(hb, c["block"], "Some")
-                            if yes:
-                                cand = yes[0][1]
-                                if entry is None or len([x for x in hb.reachable(cand, avoid=[h]) if x in blk]) < len([x for x in hb.reachable(entry, avoid=[h]) if x in blk]):
-                                    entry = cand
-            if entry is None:
-                msgw = "loop structure not recognised"
-            else:
-                r = hb.reachable(entry, avoid={wb})
-                okw = h not in r
-                if not okw:
-                    msgw = "an iteration of the loop can skip writing the correlation entry (it keeps its initial value): the matrix is no longer the normalised covariance"
-    R.add(rule, config, ab.key, "every-entry-written", okw, "" if okw else msgw, ab.j["span"])
-    R.floor(rule, config, 2, "element formula + every entry written")
+    okw = T is not None and T["complete"]
+    msgw = "" if okw else ("an entry of the correlation matrix can keep its initial value (a conditional store, or loops that do not range over the full square): "
+                           "the matrix is no longer the normalised covariance" if T is not None else "no element-wise construction recognised")
+    R.add(rule, config, ab.key, "every-entry-written", okw, msgw, ab.j["span"])
 
 
 def affine_in(t, x):
@@ -780,76 +717,74 @@ def rule_band(F, ev, R, config, rule="R-BAND"):
             break
     ok = t == ("field", me, sr["dof"])
     R.add(rule, config, b.key, "nu=degrees-of-freedom", ok, "" if ok else "degrees of freedom handed to the quantile are `%s`, not the stored N−M−P" % short(nu)[:120], pt.get("span"))
-    # --- radius_i = t · sigma_i, aligned (element stores, closure or loop form)
+    # --- radius_i = t · sigma_i for every sample i (canonical tabulation of the returned vector)
     import effects as fx
+    import tab
+    from rules_panic import nosite
     okr = False
     msg = "radius elements not recognised"
     tq = ev.call_val(env, pbi)
-    from rules_panic import nosite
-    stores = [e for e in fx.iteration_effects(ev, env) if e.kind == "store"]
-    for e in stores:
-        ptr, v = e.args
-        comp = iter_component(ptr)
-        if not comp:
-            continue
-        it, path, el = comp
-        if not (it[0] == "call" and it[1].rsplit("::", 1)[-1] == "zip" and len(path) == 1):
-            msg = "radius and sigma are not iterated in lock-step over the samples"
-            continue
-        o, i = fx.base_iter(it[3][int(path[0])]), fx.base_iter(it[3][1 - int(path[0])])
-        sig_el = ("field", el, str(1 - int(path[0])))
-        oko = o[0] == "call" and o[1].endswith("iter_mut")
-        oki = i[0] == "call" and i[1].endswith("::iter") and i[3][0] == ("field", me, sr["sigma"])
-        outm = base_alloc(o[3][0]) if oko else None
-        okout = outm is not None and outm[0] == "call" and dimval(outm[3][0])[0] == "call" and dimval(outm[3][0])[1].endswith("Matrix::nrows") and dimval(outm[3][0])[3][0] == ("field", me, sr["sigma"])
+    cn = tab.Canon(ev)
+    effs = list(fx.iteration_effects(ev, env))
+    ev.fresh_ctx()
+    T, why = tab.tab_of(cn, effs, ev.ret_val(env))
+    sigma = ("field", me, sr["sigma"])
+    if T is None:
+        msg = "the returned vector is not recognised as filled element by element: " + why
+    elif len(T["ivs"]) != 1:
+        msg = "the radius is not indexed by one sample index"
+    else:
+        k = T["ivs"][0]
+        v = T["val"]
         okv = False
         if v[0] == "call" and v[1].endswith("CastF64::from_f64"):
             m = v[3][0]
             if m[0] == "bin" and m[1] == "Mul":
                 fs_ = (m[2], m[3])
-                okv = any(nosite(y) == nosite(tq) for y in fs_) and any(y[0] == "call" and y[1].endswith("CastF64::into_f64") and y[3] == (sig_el,) for y in fs_)
-        okr = oko and oki and okout and okv
+                okv = any(nosite(y) == nosite(cn.canon(tq)) for y in fs_) and \
+                    any(y[0] == "call" and y[1].endswith("CastF64::into_f64") and y[3] == (("at", sigma, k),) for y in fs_)
+        oklen = tuple(T["dims"]) == (("nrows", sigma),)
+        okr = okv and oklen and T["complete"]
         if not okv:
-            msg = "radius element is `%s`, expected t·σ_i" % short(v)[:120]
-        elif not (oko and oki and okout):
-            msg = "radius and sigma are not iterated in lock-step over the samples"
+            msg = "radius element i is `%s`, expected t·σ_i" % short(v)[:120]
+        elif not oklen:
+            msg = "the radius vector has length `%s`, not one entry per sigma" % ", ".join(short(d)[:40] for d in T["dims"])
+        elif not T["complete"]:
+            msg = "not every radius entry is written"
     R.add(rule, config, b.key, "radius_i=t·sigma_i", okr, "" if okr else msg, b.j["span"])
-    # --- sigma_i = sqrt(j_iᵀ Cov j_i) over rows of the unweighted J (constructor, possibly via a helper)
+    # --- sigma_i = sqrt(j_iᵀ Cov j_i) over rows of the unweighted J (constructor, possibly via helpers)
     cb_, cenv_, f, s, _ = ctor_fields(F, ev)
     a = args_by_type(cb_)
     oks = False
     msg = "sigma not recognised"
+    cn2 = tab.Canon(ev)
+    effs2 = list(fx.iteration_effects(ev, cenv_))
+    T2, why2 = tab.tab_of(cn2, effs2, f[sr["sigma"]])
     sig_alloc = base_alloc(f[sr["sigma"]])
-    for e in fx.iteration_effects(ev, cenv_):
-        if e.kind != "store":
-            continue
-        ptr, v = e.args
-        comp = iter_component(ptr)
-        if not comp:
-            continue
-        it, path, el = comp
-        if not (it[0] == "call" and it[1].rsplit("::", 1)[-1] == "zip" and len(path) == 1):
-            continue
-        o, i = fx.base_iter(it[3][int(path[0])]), fx.base_iter(it[3][1 - int(path[0])])
-        row_el = ("field", el, str(1 - int(path[0])))
-        oko = o[0] == "call" and o[1].endswith("iter_mut") and nosite(base_alloc(o[3][0])) == nosite(sig_alloc)
-        if not oko:
-            continue
-        okrow = i[0] == "call" and i[1].endswith("row_iter")
-        Jt = i[3][0] if okrow else None
+    if T2 is None:
+        msg = "sigma is not recognised as filled element by element: " + why2
+    elif len(T2["ivs"]) != 1:
+        msg = "sigma is not indexed by one sample index"
+    else:
+        k = T2["ivs"][0]
+        v = T2["val"]
+        covc = nosite(cn2.canon(f[sr["cov"]]))
+        rows = [x for x in walk(v) if x[0] == "row" and x[2] == k]
+        Jt = rows[0][1] if rows else None
+        okrow = Jt is not None and all(x[1] == Jt for x in rows)
         okJ = Jt is not None and not contains(Jt, lambda y: y[0] == "call" and y[1] == "std::ops::Mul::mul" and y[2] in (ADT_WEIGHTS, ADT_DIAG))
 
         def isjt(y):
-            return y[0] == "call" and y[1].endswith("Matrix::transpose") and y[3] == (row_el,)
+            return y[0] == "call" and y[1].endswith("Matrix::transpose") and y[3] == (("row", Jt, k),)
         okv = False
         if v[0] == "call" and v[1].endswith("::sqrt"):
             d = v[3][0]
             if d[0] == "call" and d[1].endswith("::dot"):
                 l, r = d[3]
-                okv = isjt(l) and r[0] == "call" and r[1] == "std::ops::Mul::mul" and nosite(r[3][0]) == nosite(f[sr["cov"]]) and isjt(r[3][1])
+                okv = isjt(l) and r[0] == "call" and r[1] == "std::ops::Mul::mul" and nosite(r[3][0]) == covc and isjt(r[3][1])
         oks = okrow and okJ and okv
         if not okrow:
-            msg = "sigma does not iterate over the rows of the Jacobian (one per sample)"
+            msg = "sigma_i is not computed from row i of the Jacobian (one per sample): `%s`" % short(v)[:120]
         elif not okJ:
             msg = "sigma uses the weighted Jacobian; the band of the fitted curve needs the unweighted one"
         elif not okv:
